@@ -64,7 +64,9 @@ def shapeOf (j : Option Json) : R Gen.C04.Shape :=
            cliDrainSurvivesCb := ← g "cliDrainSurvivesCb" d.cliDrainSurvivesCb,
            unaryDrainOnCb := ← g "unaryDrainOnCb" d.unaryDrainOnCb, hdrDrainOnCb := ← g "hdrDrainOnCb" d.hdrDrainOnCb,
            hdrAbortCloses := ← g "hdrAbortCloses" d.hdrAbortCloses,
-           emptyRequestReplies := ← g "emptyRequestReplies" d.emptyRequestReplies }
+           emptyRequestReplies := ← g "emptyRequestReplies" d.emptyRequestReplies,
+           initErrorFlushesLogs := ← g "initErrorFlushesLogs" d.initErrorFlushesLogs,
+           failFlushesLogs := ← g "failFlushesLogs" d.failFlushesLogs }
 
 def resName : Res → String
   | .none => "none" | .value => "value" | .error => "error" | .data => "data" | .fin => "end" | .raised => "raised"
